@@ -17,12 +17,13 @@ import (
 	"crypto/sha256"
 	"encoding/base64"
 	"fmt"
-	"math"
 	"regexp"
 	"sort"
 	"strconv"
 	"strings"
 	"sync"
+
+	"github.com/vedadiyan/genql/compare"
 )
 
 // All type definitions
@@ -621,12 +622,9 @@ func Reader(data any, selectors []any) (any, error) {
 								switch value := value.(type) {
 								case float64:
 									{
-										remainder := math.Mod(value, 1)
-										if remainder == 0 {
-											copy[selector.GetKey()] = fmt.Sprintf("%d", int64(value))
-											continue
-										}
-										copy[selector.GetKey()] = fmt.Sprintf("%f", value)
+										// its decimal text: neither cut to six
+										// decimals nor wrapped around beyond 2^63
+										copy[selector.GetKey()] = compare.Text(value)
 									}
 								default:
 									{
@@ -637,6 +635,11 @@ func Reader(data any, selectors []any) (any, error) {
 							}
 						case NUMBER:
 							{
+								// what is a number already stays the number it is
+								if number, ok := data[selector.GetKey()].(float64); ok {
+									copy[selector.GetKey()] = number
+									continue
+								}
 								str, ok := data[selector.GetKey()].(string)
 								if !ok {
 									return nil, INVALID_TYPE.Extend(fmt.Sprintf("failed to execute pipe operation. %s is of %T type", selector.GetKey(), data[selector.GetKey()]))
